@@ -19,7 +19,18 @@ def run(cmd, env=None, timeout=3600, cwd=None):
   e = dict(os.environ); e.update(env or {})
   p = subprocess.run(cmd, capture_output=True, text=True, env=e, timeout=timeout, cwd=cwd)
   return p.returncode, (p.stdout + p.stderr)
+if not os.path.isdir(os.path.join(wt, 'vizier')) or not os.path.exists(demo):
+  sys.exit('no worktree %s with a demo: re-create it with tools/reseed.sh' % wt)
+old = {}
+if os.path.exists(os.path.join(out, 'meta.json')):
+  try: old = json.load(open(os.path.join(out, 'meta.json')))
+  except ValueError: old = {}
 meta = {'property': pid, 'tag': tag, 'worktree': wt}
+if old.get('notes'): meta['notes'] = old['notes']
+# every evaluation is kept: a change first missed and caught after strengthening shows both
+meta['evaluations'] = old.get('evaluations', [])
+if old.get('checks') and not meta['evaluations']:
+  meta['evaluations'].append({'caught_by': old.get('caught_by', []), 'exits': {k: v['exit'] for k, v in old['checks'].items()}})
 # refresh patch from the worktree (source only)
 rc, diff = run(['git', '-C', wt, 'diff', '--', 'vizier'])
 open(os.path.join(out, 'patch.diff'), 'w').write(diff)
@@ -44,6 +55,8 @@ for chk in [pid] + also:
   for l in results[chk]['violations'][:4]: print('   ', l[:220])
 meta['checks'] = results
 meta['caught_by'] = [c for c, r in results.items() if r['exit'] == 1]
+meta['evaluations'].append({'at': time.strftime('%Y-%m-%dT%H:%M:%SZ', time.gmtime()), 'caught_by': meta['caught_by'],
+                            'exits': {k: v['exit'] for k, v in results.items()}})
 json.dump(meta, open(os.path.join(out, 'meta.json'), 'w'), indent=1)
 print('confirmed', meta['confirmed'], 'caught_by', meta['caught_by'])
 # regenerate any generated Lean files from /repo again
